@@ -4,6 +4,7 @@ using namespace squids;
 // which: 0 Projector, 1 Identity, 2 PosProjector, 3 NegProjector, 4 Generator
 // hist=1: a vector of the same dimension filled with the value junk has been destroyed before, so the factory may be handed its block back;
 // hist=2: the same factory ran in a neighbouring dimension before (scratch carried between calls)
+// hist=3: an earlier result of the same call was overwritten with junk by the caller (results must not share storage)
 extern "C" int h_factory(unsigned which, unsigned d, unsigned i, double* o, unsigned hist, double junk){
   try{
     if(hist==1){ SU_vector j(d); j.SetAllComponents(junk); }
@@ -19,6 +20,16 @@ extern "C" int h_factory(unsigned which, unsigned d, unsigned i, double* o, unsi
         default: break;
       }
       if(p.Dim()!=dp) return 4;
+    }
+    if(hist==3){ // an earlier result of the same call was modified in place by its owner and destroyed
+      switch(which){
+        case 0: { SU_vector r = SU_vector::Projector(d,i); r.SetAllComponents(junk); } break;
+        case 1: { SU_vector r = SU_vector::Identity(d); r.SetAllComponents(junk); } break;
+        case 2: { SU_vector r = SU_vector::PosProjector(d,i); r.SetAllComponents(junk); } break;
+        case 3: { SU_vector r = SU_vector::NegProjector(d,i); r.SetAllComponents(junk); } break;
+        case 4: { SU_vector r = SU_vector::Generator(d,i); r.SetAllComponents(junk); } break;
+        default: break;
+      }
     }
     SU_vector v;
     switch(which){
